@@ -94,3 +94,247 @@ def resolveM (digits : List Nat) (g : Nat) : Nat × List Nat :=
     ((digits.take k).foldl (fun n d => n * 10 + d) 0, digits.drop k)
 
 end EPV.Regex
+
+/-! ### `translate_pattern`: the scanner outside bracket expressions (patterns.py:114-279)
+
+The `while pos < pattern_len` loop, one source lexeme per step.  What the code appends to `regex`
+is modelled as a list of tokens: structural fragments (`(` / `(?:`, `)`, `|`, quantifiers) and
+*atoms* — each atom stands for one fragment text whose meaning under Python's `re` is a parameter
+(`PySem`, Lemmas/RegexTranslate.lean).  Two fragments are merged for convenience: a quantifier
+followed by `?` (appended in two iterations as `*` and `?`) is one reluctant-quantifier token, with
+the checks of both iterations; and the no-op rewrite `regex[-1] = '(?:^)'` before a quantifier after
+an anchor is not represented.  `none` = `RegexError`. -/
+namespace EPV.Regex
+
+/-- structural tokens, generic in the atom type -/
+inductive Tok (α : Type) where
+  | atom (a : α)
+  | lpar (capture : Bool)
+  | rpar
+  | bar
+  | quant (lo : Nat) (hi : Option Nat) (lazy : Bool)
+  deriving Repr, Inhabited
+
+def Tok.map {α β : Type} (f : α → β) : Tok α → Tok β
+  | .atom a => .atom (f a)
+  | .lpar c => .lpar c
+  | .rpar => .rpar
+  | .bar => .bar
+  | .quant lo hi l => .quant lo hi l
+
+/-- regular-expression syntax trees over an atom type -/
+inductive Ast (α : Type) where
+  | eps
+  | atom (a : α)
+  | group (capture : Bool) (r : Ast α)
+  | cat (a b : Ast α)
+  | alt (a b : Ast α)
+  | quant (r : Ast α) (lo : Nat) (hi : Option Nat) (lazy : Bool)
+  deriving Repr, Inhabited
+
+/-! The grammar shared by XSD ([64] regExp ::= branch ('|' branch)*, [65] branch ::= piece*,
+[66] piece ::= atom quantifier?, [72] atom ::= ... | '(' regExp ')') and by Python's `re` for the
+fragments above (alternation of concatenations of optionally repeated items, items = atoms or
+parenthesised sub-expressions).  Fuel-based recursive descent; `none` = syntax error. -/
+mutual
+def tRegExp {α : Type} : Nat → List (Tok α) → Option (Ast α × List (Tok α))
+  | 0, _ => none
+  | f + 1, ts =>
+    match tBranch f ts with
+    | none => none
+    | some (b, .bar :: rest) => (tRegExp f rest).map fun (r, rest') => (.alt b r, rest')
+    | some res => some res
+def tBranch {α : Type} : Nat → List (Tok α) → Option (Ast α × List (Tok α))
+  | 0, _ => none
+  | f + 1, ts =>
+    match ts with
+    | [] => some (.eps, [])
+    | .bar :: _ => some (.eps, ts)
+    | .rpar :: _ => some (.eps, ts)
+    | _ =>
+      match tPiece f ts with
+      | none => none
+      | some (p, rest) =>
+        (tBranch f rest).map fun (b, rest') => (match b with | .eps => p | _ => .cat p b, rest')
+def tPiece {α : Type} : Nat → List (Tok α) → Option (Ast α × List (Tok α))
+  | 0, _ => none
+  | f + 1, ts =>
+    match tAtom f ts with
+    | none => none
+    | some (a, .quant lo hi l :: rest) => some (.quant a lo hi l, rest)
+    | some res => some res
+def tAtom {α : Type} : Nat → List (Tok α) → Option (Ast α × List (Tok α))
+  | 0, _ => none
+  | f + 1, ts =>
+    match ts with
+    | .atom a :: rest => some (.atom a, rest)
+    | .lpar c :: rest =>
+      match tRegExp f rest with
+      | some (r, .rpar :: rest') => some (.group c r, rest')
+      | _ => none
+    | _ => none
+end
+
+def parseT {α : Type} (ts : List (Tok α)) : Option (Ast α) :=
+  match tRegExp (4 * ts.length + 8) ts with
+  | some (r, []) => some r
+  | _ => none
+
+/-- the fragment texts `translate_pattern` can append for one atom -/
+inductive PyAtom where
+  | chr (c : Ch)                 -- the character itself (`regex.append(ch)`)
+  | esc (e : Ch)                 -- `\e` handed to Python unchanged (final `else` of the escape case)
+  | dotAll                       -- `.` under `re.DOTALL`
+  | dotNoNL                      -- `[^\r\n]`
+  | bol | bolM                   -- `^`  /  `(?<!\n\Z)^`
+  | eol | eolM                   -- `$(?!\n\Z)`  /  `$`
+  | litAnchor (c : Ch)           -- `\^` `\$` (anchors off)
+  | cls (cc : CC)                -- `str(char_class)`  (or `[^\w\W]` when it prints as `[]`)
+  | nameEsc (start : Bool) (neg : Bool)   -- `[...]` / `[^...]` with I_SHORTCUT_REPLACE / C_SHORTCUT_REPLACE
+  | prop (s : SetE) (neg : Bool) -- `[%s]` / `[^%s]` of a category or block (inside `(?-i:..)` under IGNORECASE)
+  | propAll                      -- unknown `Is` block under XSD 1.1: `[%s]` of `UnicodeSubset([(0, maxunicode)])`
+  | backref (n : Nat)            -- `\N`
+  | bracketDigit (d : Nat)       -- `[d]` after a back-reference
+  | bslash                       -- a lone `\` at the end of the pattern (re.compile rejects it)
+  deriving Inhabited
+
+structure ScanOpts where
+  dotAll : Bool := false
+  multi : Bool := false
+  verbose : Bool := false
+  v10 : Bool := true
+  backrefs : Bool := true        -- back_references
+  lazy : Bool := true            -- lazy_quantifiers
+  anchors : Bool := true
+  deriving Inhabited
+
+def startsWith1 (a : Ch) : List Ch → Bool
+  | c :: _ => c == a
+  | [] => false
+def startsWith2 (a b : Ch) : List Ch → Bool
+  | c :: d :: _ => c == a && d == b
+  | _ => false
+
+/-- `QUANTIFIER_PATTERN = {\d+(,(\d+)?)?}` matched at `{`: (lo, hi, rest after `}`) -/
+def scanBrace (inp : List Ch) : Option (Nat × Option Nat × List Ch) :=
+  let num (l : List Ch) : Nat := l.foldl (fun n c => n * 10 + (c - 48)) 0
+  let d1 := inp.takeWhile isDig
+  if d1.isEmpty then none else
+  match inp.dropWhile isDig with
+  | 125 :: rest => some (num d1, some (num d1), rest)
+  | 44 :: rest1 =>
+    let d2 := rest1.takeWhile isDig
+    match rest1.dropWhile isDig with
+    | 125 :: rest => some (num d1, if d2.isEmpty then none else some (num d2), rest)
+    | _ => none
+  | _ => none
+
+/-- the lazy marker after a quantifier and the look-ahead checks of the two iterations:
+`first` = the characters that may not follow the quantifier itself (`?+*{` after `? * +`, `?+*` after
+`{..}`) unless it is a `?` and lazy quantifiers are on; the marker `?` is then itself checked against `?+*{` -/
+def scanLazy (o : ScanOpts) (afterBrace : Bool) (rest : List Ch) : Option (Bool × List Ch) :=
+  let bad1 (c : Ch) : Bool := c == 63 || c == 43 || c == 42 || (!afterBrace && c == 123)
+  let bad2 (c : Ch) : Bool := c == 63 || c == 43 || c == 42 || c == 123
+  match rest with
+  | [] => some (false, [])
+  | c :: rest' =>
+    if !bad1 c then some (false, rest)
+    else if !(o.lazy && c == 63) then none
+    else match rest' with
+      | [] => some (true, [])
+      | c2 :: _ => if bad2 c2 && !(o.lazy && c2 == 63) then none else some (true, rest')
+
+/-- one iteration of the loop at `ch :: rest`; `atStart` = `pos == 0`, `total` = `total_groups`,
+`nested` = `nested_groups`.  Returns the appended tokens, the remaining text and the new counters. -/
+def scanStep (T : MTables) (o : ScanOpts) (atStart : Bool) (total nested : Nat) :
+    List Ch → Option (List (Tok PyAtom) × List Ch × Nat × Nat)
+  | [] => none
+  | 46 :: rest => some ([.atom (if o.dotAll then .dotAll else .dotNoNL)], rest, total, nested)
+  | 94 :: rest =>
+    some ([.atom (if !o.anchors then .litAnchor 94 else if o.multi then .bolM else .bol)], rest, total, nested)
+  | 36 :: rest =>
+    some ([.atom (if !o.anchors then .litAnchor 36 else if o.multi then .eolM else .eol)], rest, total, nested)
+  | 91 :: rest =>
+    match parseClassM T o.v10 (rest.length + 1) rest with
+    | some (cc, rest') => some ([.atom (.cls cc)], rest', total, nested)
+    | none => none
+  | 123 :: rest =>
+    if atStart then none else
+    match scanBrace rest with
+    | none => none
+    | some (lo, hi, rest') =>
+      match scanLazy o true rest' with
+      | none => none
+      | some (lz, rest'') => some ([.quant lo hi lz], rest'', total, nested)
+  | 40 :: rest =>
+    let nonCap := startsWith2 63 58 rest                               -- `pattern[pos:pos+3] == '(?:'`
+    let ext := startsWith1 63 rest                                     -- `pattern[pos:pos+2] == '(?'`
+    if ext && !nonCap then none                                        -- `(?...)` extension notation
+    else if nonCap then
+      -- with back_references off the text becomes `(?:?:` which re.compile rejects
+      if o.backrefs then some ([.lpar false], rest.drop 2, total, nested + 1) else none
+    else some ([.lpar o.backrefs], rest, total + 1, nested + 1)        -- group_open_char
+  | 93 :: _ => none
+  | 41 :: rest => if nested == 0 then none else some ([.rpar], rest, total, nested - 1)
+  | 92 :: rest0 =>
+    let rest := if o.verbose then rest0.dropWhile (· == 32) else rest0
+    match rest with
+    | [] => some ([.atom .bslash], [], total, nested)                    -- `regex.append('\\')`
+    | e :: rest' =>
+      if isDig e then
+        let more := rest'.takeWhile isDig
+        let digits := (e - 48) :: more.map (· - 48)
+        let k := brLoop total (e - 48) 1 (more.map (· - 48))
+        let n := (digits.take k).foldl (fun n d => n * 10 + d) 0
+        -- digits beyond the `[d]` stay in the text and are read as plain characters
+        match digits.drop k with
+        | [] => some ([.atom (.backref n)], rest'.drop (k - 1), total, nested)
+        | d :: _ => some ([.atom (.backref n), .atom (.bracketDigit d)], rest'.drop k, total, nested)
+      else if e == 105 then some ([.atom (.nameEsc true false)], rest', total, nested)
+      else if e == 73 then some ([.atom (.nameEsc true true)], rest', total, nested)
+      else if e == 99 then some ([.atom (.nameEsc false false)], rest', total, nested)
+      else if e == 67 then some ([.atom (.nameEsc false true)], rest', total, nested)
+      else if e == 112 || e == 80 then
+        match rest' with
+        | 123 :: rest2 =>
+          let name0 := rest2.takeWhile (· != 125)
+          match rest2.dropWhile (· != 125) with
+          | 125 :: rest3 =>
+            let name := if o.verbose then name0.filter (· != 32) else name0
+            match T.prop name with
+            | some s => some ([.atom (.prop s (e == 80))], rest3, total, nested)
+            | none => if o.v10 || name.take 2 != [73, 115] then none else some ([.atom .propAll], rest3, total, nested)
+          | _ => none
+        | _ => none
+      else some ([.atom (.esc e)], rest', total, nested)
+  | c :: rest =>
+    if c == 63 || c == 42 || c == 43 then
+      if atStart then none else
+      match scanLazy o false rest with
+      | none => none
+      | some (lz, rest') =>
+        some ([.quant (if c == 43 then 1 else 0) (if c == 63 then some 1 else none) lz], rest', total, nested)
+    else if c == 124 then some ([.bar], rest, total, nested)
+    else some ([.atom (.chr c)], rest, total, nested)
+
+/-- the whole loop -/
+def scanLoop (T : MTables) (o : ScanOpts) : Nat → Bool → Nat → Nat → List Ch → Option (List (Tok PyAtom))
+  | 0, _, _, _, _ => none
+  | _ + 1, _, _, nested, [] => if nested > 0 then none else some []      -- unterminated subpattern
+  | fuel + 1, atStart, total, nested, inp =>
+    match scanStep T o atStart total nested inp with
+    | none => none
+    | some (toks, rest, total', nested') =>
+      (scanLoop T o fuel false total' nested' rest).map (toks ++ ·)
+
+/-- `translate_pattern(pattern, flags, xsd_version, back_references, lazy_quantifiers, anchors)`
+as a token list; with `anchors = False` the result is wrapped as `^( ... )$(?!\n\Z)` -/
+def translateM (T : MTables) (o : ScanOpts) (pattern : List Ch) : Option (List (Tok PyAtom)) :=
+  if forbiddenEscape o.backrefs none pattern then none else
+  match scanLoop T o (pattern.length + 1) true 0 0 pattern with
+  | none => none
+  | some toks =>
+    if o.anchors then some toks
+    else some ([.atom .bol, .lpar o.backrefs] ++ toks ++ [.rpar, .atom .eol])
+
+end EPV.Regex
